@@ -540,8 +540,6 @@ MUTANTS = [
          old='"MA": ",".join(\n                        f"*{minor.solution[i].major}"', new='"MA": ",".join(\n                        f"*{minor.solution[i].minor}"'),
     dict(name="R6 ID column holds the position-based name", module="diplotype", expect="C12.R6",
          old="                id=gene.get_rsid(m, default=False),", new="                id=gene.get_rsid(m),"),
-    dict(name="R6 records in set order", module="diplotype", expect=["C12.R6", "C14.R3"],
-         old="    for m in sorted(all_mutations):", new="    for m in all_mutations:"),
     dict(name="R5 read support of the wrong variant", module="diplotype", expect="C12.R5",
          old="                        coverage[m],\n                        fn if fn else \"none\",", new="                        coverage[sorted(mutations)[0]],\n                        fn if fn else \"none\","),
     dict(name="R5 no empty row for a copy without variants", module="diplotype", expect="C12.R5",
